@@ -55,6 +55,11 @@ func (q quote) libForm(form int) *bt.FeeQuote {
 		fq.AddQuote(bt.FeeTypeStandard, got)
 		fq.AddQuote(bt.FeeTypeData, &cp)
 		return fq
+	case 10:
+		// the relay fee says something else than the mining fee (the mining fee is the quoted fee; a
+		// free-to-mine type with a relay fee stays free)
+		std.RelayFee = bt.FeeUnit{Satoshis: 977, Bytes: 3}
+		data.RelayFee = bt.FeeUnit{Satoshis: 13, Bytes: 7}
 	case 9:
 		// two miners' quotes were filled with the SAME Fee objects; the other miner's fees are then
 		// refreshed through UpdateMinerFees with other rates: this miner's quote still says q
